@@ -52,7 +52,7 @@ Print Assumptions C18_wire_name_kept.
 (* enum values: the member name differs from the value only by the keyword suffix, is never a keyword,
    and two values of one enum collide only in the shape  kw / kw_  (part of finding F18-silent-merge) *)
 Theorem C18_enum_member_collision : forall a b, enum_member a = enum_member b -> a <> b ->
-  (iskeyword a = true /\ b = (a ++ ["_"%char])%list) \/ (iskeyword b = true /\ a = (b ++ ["_"%char])%list).
+  (enum_renamed a = true /\ b = (a ++ ["_"%char])%list) \/ (enum_renamed b = true /\ a = (b ++ ["_"%char])%list).
 Proof. exact enum_member_collision. Qed.
 Print Assumptions C18_enum_member_collision.
 
